@@ -30,6 +30,10 @@ func checkC07(c *Check) {
 	ruleReaderShutdown(c, p, "R07.6")
 	ruleHeaderGate(c, p, "R07.11")
 	c.RuleDoc["R07.11"] = "= R19.2: a descriptor is accepted only behind the check-byte comparison and the block-size validity test (an undefined block-size code would reach the buffer pools, whose lookup panics)"
+	ruleConsumerDrains(c, p, "R07.13")
+	c.RuleDoc["R07.13"] = "the consumer of the concurrent decoder reads the error latch only once the data channel has delivered an empty buffer (otherwise an early error return strands the pipeline goroutines)"
+	ruleObservationalCollapse(c, "R07.12")
+	c.RuleDoc["R07.12"] = "= R12.2: every negative result of either block decoder becomes an error (a negative count returned as success is used as a slice bound by the frame layer and panics)"
 	ruleStreamsThroughInterface(c, p, "R07.10")
 	c.RuleDoc["R07.10"] = "user streams are used only through the interface they were passed as (no type assertion to optional methods)"
 	ruleInputSizedExternalCalls(c, p, "R07.9")
